@@ -35,6 +35,9 @@ CHECKS = {
  'C13': dict(tech=B + '; local arrays as z3 arrays resolved by case split on element equality', cat='model_checking',
              text='crystal_diffraction.c evaluated symbolically for an arbitrary user crystal: d-spacing equals the reciprocal-metric form, inversion and 1/n scaling, unit-cell volume formula, Bragg law or an error when no reflection exists, Q amplitude, Atomic_Factors outputs, structure factor = explicit sum over atoms with the per-element cache for equal/distinct elements and all 12 flag combinations, invalid flag / Z / NULL crystal errors, additivity in the flags and Friedel law on the proved form',
              note='double modelled as real; trig/sqrt/asin uninterpreted with the stated axioms; <= 2 atoms (quick) / 3 (thorough); |Miller| <= 64; positive-definite cell assumed (DL2 for built-ins not yet machine-checked); (0,0,0) limit uses FF_Rayl(Z,0)=Z from C02'),
+ 'C15': dict(tech=A + ' over an arbitrary 3-entry catalogue; shipped catalogue constants compared directly', cat='model_checking',
+             text='the real NIST and radionuclide lookup units executed by CBMC over a small catalogue with symbolic contents: by-index / by-name / name-list agree, deep independent copies, error protocol, no leak; the shipped catalogues (180 compounds, 10 nuclides) are checked for well-formedness, unique names and index-macro/name agreement by direct evaluation of the constants',
+             note='3 entries, names <= 3 bytes, <= 2 elements (functions have no size-dependent branch); memcpy/strdup/lfind are loop models (CBMC built-in memcpy is imprecise on interior sub-arrays); element-symbol bijection and crystal catalogue are covered under C07/C14'),
 }
 NA = {
  'C19': 'no symbolic engine for Java/JVM bytecode is installed (no JBMC/SPF); a hand-written Java->SMT translator for 5900 lines using ByteBuffer I/O, exceptions and collections is out of reach; see DESIGN.md C19',
